@@ -167,7 +167,13 @@ def main():
     if r.returncode != 0:
         fail("build", "C19/build/translator", "gen_cpp.py does not match the sources any more",
              {"status": r.returncode, "output": r.stdout[-3000:]})
-        finish()
+        # the proof obligation over the regenerated tables is broken; still search for a failing
+        # input: drive the compiled wrapper against the interposed C API, with the field lists of
+        # the last successful translation (the C structs are cross-checked against the compiler below)
+        last = VERIF + "/coq/gen/Cpp_gen.v"
+        if not os.path.exists(last):
+            finish()
+        shutil.copy(last, B + "/coq/gen/Cpp_gen.v")
     gen = read_gen(B + "/coq/gen/Cpp_gen.v")
 
     # 2. the constants of the real library -> capi_consts_gen.h
